@@ -210,28 +210,36 @@ func isCommaOrSpace(c rune) bool {
 	return c == ',' || c == ' '
 }
 
-func discard(reader io.Reader) error {
+// discard reads and throws away what's left in the reader, up to discardLimit
+// bytes. It reports whether it got to the end of the reader: only then has a
+// response body told net/http that it's complete (and only then are the HTTP
+// trailers there to be read).
+func discard(reader io.Reader) (bool, error) {
 	if lr, ok := reader.(*io.LimitedReader); ok {
 		_, err := io.Copy(io.Discard, lr)
-		return err
+		return err == nil, err
 	}
 	// We don't want to get stuck throwing data away forever, so limit how much
 	// we're willing to do here.
 	lr := &io.LimitedReader{R: reader, N: discardLimit}
 	if _, err := io.Copy(io.Discard, lr); err != nil {
-		return err
+		return false, err
 	}
-	if lr.N == 0 {
-		// We've thrown away exactly as much as we're willing to. If that was all
-		// there is, the reader may still be waiting to tell us so: HTTP trailers
-		// only become available once the body has reported io.EOF, which it may
-		// do along with the last bytes or on a read of its own.
-		var probe [1]byte
-		if _, err := reader.Read(probe[:]); err != nil && !errors.Is(err, io.EOF) {
-			return err
-		}
+	if lr.N > 0 {
+		return true, nil // the reader ended before we reached the limit
 	}
-	return nil
+	// We've thrown away exactly as much as we're willing to. Whether that was
+	// all must not depend on how the reader reports its end - along with the
+	// last bytes, or on a read of its own - so ask once more.
+	var probe [1]byte
+	n, err := reader.Read(probe[:])
+	if n > 0 {
+		return false, nil // there's more than we're willing to drain
+	}
+	if err != nil && !errors.Is(err, io.EOF) {
+		return false, err
+	}
+	return err != nil, nil
 }
 
 func validateRequestURL(uri string) *Error {
